@@ -156,31 +156,61 @@ fn strings(j: &J) -> Vec<String> {
 }
 
 pub fn run_session(sess: &J, out: &mut TraceOut) -> Result<(), String> {
-    let mut eg = new_egraph(&sess["mode"]);
+    let mut slots: Vec<EGraph> = vec![new_egraph(&sess["mode"])];
     let tables = strings(&sess["tables"]);
     for s in strings(&sess["setup"]) {
-        let (res, _, msg) = run_text(&mut eg, &s);
+        let (res, _, msg) = run_text(&mut slots[0], &s);
         if res != "ok" {
             return Err(format!("session {}: setup `{}` failed: {} {}", sess["id"], s, res, msg));
         }
     }
-    out.emit(json!({"e": "decl", "id": sess["id"], "mode": sess["mode"], "prog": sess["prog"], "active": sess["active"]}));
+    let mut decl = json!({"e": "decl", "id": sess["id"], "mode": sess["mode"], "prog": sess["prog"], "active": sess["active"]});
+    for k in ["declared", "cmp"] {
+        if !sess[k].is_null() {
+            decl[k] = sess[k].clone();
+        }
+    }
+    out.emit(decl);
     let steps = sess["steps"].as_array().ok_or("steps")?;
     for (i, st) in steps.iter().enumerate() {
+        if st["op"].as_str() == Some("clone") {
+            // EGraph::clone(): the copy becomes slot 1 (replacing an earlier copy)
+            let from = st["from"].as_u64().unwrap_or(0) as usize;
+            let copy = slots[from].clone();
+            if slots.len() > 1 - from.min(1) && slots.len() == 2 {
+                slots[1 - from] = copy;
+            } else {
+                slots.push(copy);
+            }
+            out.emit(json!({"e": "clone", "i": i}));
+            continue;
+        }
+        let slot = st["slot"].as_u64().unwrap_or(0) as usize;
         let text = st["text"].as_str().ok_or("text")?;
-        let (res, outs, msg) = run_text(&mut eg, text);
-        let d = catch_unwind(AssertUnwindSafe(|| dump(&eg, &tables)));
+        let (res, outs, msg) = run_text(&mut slots[slot], text);
+        let d = catch_unwind(AssertUnwindSafe(|| dump(&slots[slot], &tables)));
         let (tabs, canon) = match d {
             Ok(Ok(x)) => x,
-            Ok(Err(e)) => return Err(format!("session {} step {}: dump: {}", sess["id"], i, e)),
+            Ok(Err(e)) => {
+                // the read API refused to show a declared table: this is an observation, not a harness fault
+                out.emit(json!({"e": "abort", "i": i, "c": st["c"], "text": text, "res": res, "slot": slot, "why": format!("read API error: {e}")}));
+                return Ok(());
+            }
             Err(_) => {
-                out.emit(json!({"e": "abort", "i": i, "c": st["c"], "text": text, "res": res, "why": "dump panicked"}));
+                out.emit(json!({"e": "abort", "i": i, "c": st["c"], "text": text, "res": res, "slot": slot, "why": "dump panicked"}));
                 return Ok(());
             }
         };
         let (oj, upd) = outputs_json(&outs);
         let mut ev = json!({"e": "cmd", "i": i, "c": st["c"], "text": text, "res": res, "msg": msg,
                             "tabs": tabs, "canon": canon, "outs": oj});
+        if slots.len() > 1 {
+            ev["slot"] = json!(slot);
+            if let Ok(Ok((ot, oc))) = catch_unwind(AssertUnwindSafe(|| dump(&slots[1 - slot], &tables))) {
+                ev["otabs"] = ot;
+                ev["ocanon"] = oc;
+            }
+        }
         if let Some(u) = upd {
             ev["upd"] = json!(if u { 1 } else { 0 });
         }
